@@ -125,7 +125,10 @@ def run(chk):
         ops = [0.5 * SZ, 0.5 * SX + 0.2 * SZ, np.diag([1.0, 0.0, -1.0])]
         dims = [2, 2, 3][:nsys]
         baths = [oqupy.Bath(ops[i], corr) for i in range(nsys)]
-        par = oqupy.TempoParameters(dt=dt, epsrel=eps, dkmax=3, subdiv_limit=None)
+        tau_ = rng.choice([None, 0.25, 0.5])
+        if tau_ is not None:
+            N = rng.randint(6, 8)          # well beyond dkmax + 2: the additional correlation time keeps growing the closing cell
+        par = oqupy.TempoParameters(dt=dt, epsrel=eps, dkmax=3 if tau_ is None else 2, add_correlation_time=tau_, subdiv_limit=None)
         hs = [0.4 * SX, 0.3 * SZ + 0.2 * SX, np.diag([0.0, 0.5, 1.2]).astype(complex)]
         cs = [SZ, SX, np.diag([1.0, 0.0, -1.0])]
         systems = [oqupy.TimeDependentSystemWithField(lambda t, a, i=i: hs[i] + 0.3 * (a.real + 0.1 * t) * cs[i]) for i in range(nsys)]
@@ -133,7 +136,7 @@ def run(chk):
         mfs = oqupy.MeanFieldSystem(systems, field_eom=eom)
         rhos = [np.eye(dm, dtype=complex) / dm + 0.2 * np.diag([1] + [0] * (dm - 2) + [-1]) for dm in dims]
         a0 = 0.4 + 0.1j
-        info = {"systems": nsys, "start": start, "N": N}
+        info = {"systems": nsys, "start": start, "N": N, "dkmax": par.dkmax, "add_correlation_time": tau_}
         try:
             d1 = quiet(oqupy.MeanFieldTempo(mfs, baths, par, rhos, a0, start).compute, start + N * dt, progress_type="silent")
             pts = [quiet(oqupy.pt_tempo_compute, b, start, start + N * dt, parameters=par, progress_type="silent") for b in baths]
@@ -167,7 +170,11 @@ def run(chk):
         start = rng.choice([0.0, 0.7, -1.1])
         corr = oqupy.PowerLawSD(alpha=0.15, zeta=1, cutoff=2.0, cutoff_type="exponential", temperature=0.2)
         bath = oqupy.Bath(0.5 * SZ, corr)
-        par = oqupy.TempoParameters(dt=dt, epsrel=eps, dkmax=rng.choice([None, 3]), subdiv_limit=rng.choice([None, 256]))
+        tau_ = rng.choice([None, 0.3]) if it != 0 else 0.3
+        par = oqupy.TempoParameters(dt=dt, epsrel=eps, dkmax=rng.choice([None, 3]) if tau_ is None else 2, add_correlation_time=tau_,
+                                    subdiv_limit=rng.choice([None, 256]))
+        if tau_ is not None:
+            N = 7
         hfun = lambda t: 0.4 * SX + 0.3 * np.sin(1.7 * t) * SZ
         gfun = lambda t: 0.05 + 0.6 * abs(t - start)
         lfun = lambda t: oqupy.operators.sigma("-") + 0.2 * np.cos(t) * SZ
